@@ -6,7 +6,7 @@ from props.shared import *
 EXPLANATION = ("R-ORDER enqueue-before-count and count-before-wake in Semphore/SyncFlag, R-EXIT try_wait decrements only by a CAS "
                "behind cnt>0 and `true` is returned only with a permit, R-SIB forwarding handshake (a permit handed to a waiter that "
                "times out / is cancelled is re-posted on exactly one side), R-WHO writers of SyncFlag.cnt, R-MO")
-EXPLANATION_2 = ('timed waits report success only with evidence (fast-path test true or park Ok); Semphore/SyncFlag wait wrappers forward')
+EXPLANATION_2 = ('timed waits report success only with evidence (fast-path test true or park Ok); Semphore/SyncFlag wait wrappers forward; post/fire do not recurse over abandoned waiters (F28, known finding)')
 NOT_DECIDED = "the counting identity over all interleavings; starvation"
 CONFIGS_QUICK = ["default"]
 
